@@ -74,6 +74,24 @@ def make_cases(ctx, n_per_type, thorough):
                 # the same value inside a params::Variant pushed through the typed API
                 vt = toks if t[0] == "v" else ["v", wg.erased(t)] + toks
                 add("catalogue", VARIANT_OPS[r.randrange(3)], ty, t, bo, prefix, vt, isbad)
+    # ---- every unencodable signature text of wiregen.BAD_SIGS (dict entries with 0 / 1 / 3 / 4 types, entries outside an array, ...) in a
+    # `g` leaf: bare through every API, and inside a random catalogue type that has a signature leaf (the catalogue stream draws ONE
+    # bad text per bad value at random: a class of texts can go unvisited in a run)
+    rg = ctx.sub_rng("c02-sigleaf")
+    gtypes = [ty for ty in wg.catalogue() + wg.catalogue_marshal_only() if wg.count_leaves(wg.parse_ext(ty), "g")]
+    for bs in wg.BAD_SIGS:
+        leaf = ["g", wg.hx(bs)]
+        for op, ty in (("MT", "g"), ("MT", "G"), (rg.choice(PARAM_OPS), "g"), (rg.choice(VARIANT_OPS), "g"), (rg.choice(CONTAINER_OPS), "(g)")):
+            toks = ["r", "1"] + leaf if ty == "(g)" else (["v", "g"] + leaf if op in VARIANT_OPS else leaf)
+            add("catalogue", op, ty, wg.parse_ext(ty), rg.choice(["le", "be"]), rg.randrange(16), toks, True, cls="bad-signature-leaf")
+        for _ in range(3 if thorough else 1):
+            ty = rg.choice(gtypes)
+            t = wg.parse_ext(ty)
+            toks = wg.ValGen(rg, sizes=(1, 2)).gen(t)
+            toks = wg.replace_leaf(toks, "g", rg.randrange(wg.count_tag(toks, "g")), wg.hx(bs))
+            add("catalogue", "MT", ty, t, rg.choice(["le", "be"]), rg.randrange(16), toks, True, cls="bad-signature-leaf")
+            if not wg.forbidden_variant_content(t):
+                add("catalogue", rg.choice(PARAM_OPS), ty, t, rg.choice(["le", "be"]), rg.randrange(16), toks, True, cls="bad-signature-leaf")
     rb = ctx.sub_rng("c02-big")
     monly = set(wg.catalogue_marshal_only())
     for cls, ty, toks in wg.big_cases(rb, thorough):
@@ -201,6 +219,8 @@ def run(ctx):
             ctx.count("corpus")
         elif c["stream"] == "catalogue":
             ctx.count("with_bad_leaf" if bad else "all_leaves_valid")
+            if c["cls"]:
+                ctx.count("catalogue:" + c["cls"])
             if op == "MT":
                 for fl in wg.flavours(ty):
                     ctx.count("rust-flavour:" + fl)
@@ -265,11 +285,12 @@ def run(ctx):
                 "marshal_as_variant MA; type; byte order; prefix length 0..15 made of preceding u8 parameters; value). "
                 "Stream 1: %d catalogue types + %d marshal-only 5-tuple types x %d values (each typed, every second also dynamic, some as a typed "
                 "params::Variant); values are boundary-biased (empty containers, min/max integers, NaNs, multi-byte UTF-8) and one in four has one "
-                "unencodable leaf. Stream 2 (big, %d cases): length fields >= 64 KiB, strings of 255..70000 bytes, 64..100 containers in one "
+                "unencodable leaf; plus every unencodable signature text of wiregen.BAD_SIGS (%d, among them dict entries with 0 / 1 / 3 / 4 types, "
+                "a non-basic key, entries outside an array) in a `g` leaf: bare through every API and inside a random type with a signature leaf. Stream 2 (big, %d cases): length fields >= 64 KiB, strings of 255..70000 bytes, 64..100 containers in one "
                 "array/dict, nesting at the limits. Stream 3 (inconsistent, %d cases): Param trees with a wrong declared element / key / value / "
                 "variant type, structs without fields, nesting beyond 64 (and exactly 64), bare and nested inside consistent trees, through every "
                 "flavour. non-trivial = the value contains a container or a text/descriptor leaf, or prefix > 0; distinct = distinct case lines"
-                % (ncat, nmo, n_per_type, len(big), sum(1 for c in cases if c["stream"] == "inconsistent")))
+                % (ncat, nmo, n_per_type, len(wg.BAD_SIGS), len(big), sum(1 for c in cases if c["stream"] == "inconsistent")))
 
 
 def replay(ctx, body):
